@@ -148,4 +148,22 @@ PROPS = {
         "assumptions": ["the reader is run with allow_invalid() because each text holds a single record of an arbitrary class",
                         "equality is octet equality of owner and of re-composed RDATA (stricter than the library's case-insensitive ==)"],
     },
+    "C07": {
+        "level": "exploration",
+        "features": ["crypto", "hooks"],
+        "stages": [
+            {"mode": "native", "cpu_budget": 30},
+            {"mode": "asan", "scale": 0.1, "cpu_budget": 120},
+            {"mode": "miri", "scale": 0.002, "shards": 16, "tiers": ["thorough"], "timeout_thorough": 3000},
+        ],
+        "rule": "an evaluation is (a) one logical zone file (origin, class, 1-8 records of 13 kinds written by the harness's own presentation writer) rendered in "
+                "5 layout variants drawn from 14 independent knobs (comments, blank/comment-only lines, parenthesised continuations opened at any token gap, "
+                "tabs, relative names and @ under $ORIGIN, owner inheritance, TTL omitted after a stated TTL or under $TTL, class omitted, class/TTL order, "
+                "lower-case keywords, CRLF, missing final newline, $ORIGIN changes) all of which must read as exactly the logical record sequence, or (b) one "
+                "hostile byte string (random, token soup, 60 hand-made nasty snippets alone and glued, very long tokens, mutated valid files) read with and "
+                "without origin and through zonetree::parsed::Zonefile under panic capture, a CPU watchdog, an entry-count cap and the error-has-position check; "
+                "distinct = (knob vector, record count) resp. (outcome class, error class)",
+        "assumptions": ["omitted TTL means $TTL if one was given, else the last explicitly stated TTL (RFC 2308 4 / RFC 1035 5.1); the renderer never omits a TTL before one was stated",
+                        "after an error the reader is not asked for further entries (documented)"],
+    },
 }
